@@ -226,6 +226,7 @@ type atomFlags struct {
 	lit *ast.FuncLit
 	may bool     // not certainly executed when control passes here
 	seq ast.Node // fail-fast chain group: executes iff every earlier atom of the group executed
+	argMay *bool // inside a chain expression: may-ness of its unconditionally evaluated parts (arguments)
 }
 
 type emitFn func(n ast.Node, fl atomFlags)
@@ -306,9 +307,20 @@ func (f *Flow) collect(n ast.Node, fl atomFlags, emit emitFn) {
 				return
 			}
 			if base, failFast, method, ok := f.chainCall(x); ok {
+				if fl.argMay == nil {
+					m := fl.may
+					fl.argMay = &m
+				}
 				gfl := fl
 				if failFast {
 					gfl.may, gfl.seq = true, base
+				}
+				// arguments are evaluated unconditionally, in sequence with the runners:
+				// they keep the enclosing certainty but belong to the group
+				afl := fl
+				afl.may = *fl.argMay
+				if failFast {
+					afl.seq = base
 				}
 				if method == "Run" || !failFast {
 					walk(x.Fun, fl)
@@ -318,13 +330,16 @@ func (f *Flow) collect(n ast.Node, fl atomFlags, emit emitFn) {
 				for _, a := range x.Args {
 					if lit, ok := ast.Unparen(a).(*ast.FuncLit); ok {
 						rf := gfl
+						rf.argMay = nil
 						if strings.HasSuffix(method, "If") {
 							rf.may, rf.seq = true, nil
 						}
 						f.inlineBody(lit, rf, emit)
 						continue
 					}
-					walk(a, fl)
+					al := afl
+					al.argMay = nil
+					walk(a, al)
 				}
 				emit(x, gfl)
 				return
